@@ -29,6 +29,7 @@ type Q struct {
 	BR    []BranchIDs
 	S     string // language, meta field, type kind (filename|filematch|repo)
 	Flags uint64 // rawconfig
+	RE    *syntax.Regexp // set by FromZoekt: the parsed regexp itself (Pat is then informative only)
 }
 
 type BranchIDs struct {
@@ -123,9 +124,13 @@ func (q *Q) JSON() M {
 		"re": M{"op": "empty", "sub": []M{}}}
 	switch q.T {
 	case "regex", "repo", "reporegexp", "meta":
-		re, err := ParseRegexp(q.Pat)
-		if err != nil {
-			panic(err)
+		re := q.RE
+		if re == nil {
+			var err error
+			re, err = ParseRegexp(q.Pat)
+			if err != nil {
+				panic(err)
+			}
 		}
 		m["re"] = RegexJSON(re)
 	}
@@ -425,4 +430,79 @@ func (g *QGen) Tree(depth int) *Q {
 	default:
 		return g.Atom()
 	}
+}
+
+// FromZoekt converts a real query tree (e.g. one produced by a rewrite) back to the abstract form.
+func FromZoekt(q query.Q) *Q {
+	subs := func(cs []query.Q) []*Q {
+		var r []*Q
+		for _, c := range cs {
+			r = append(r, FromZoekt(c))
+		}
+		return r
+	}
+	ids := func(b *roaring.Bitmap) []uint32 {
+		if b == nil {
+			return nil
+		}
+		return b.ToArray()
+	}
+	switch v := q.(type) {
+	case *query.And:
+		return &Q{T: "and", Sub: subs(v.Children)}
+	case *query.Or:
+		return &Q{T: "or", Sub: subs(v.Children)}
+	case *query.Not:
+		return &Q{T: "not", Sub: []*Q{FromZoekt(v.Child)}}
+	case *query.Const:
+		return &Q{T: "const", B: v.Value}
+	case *query.Substring:
+		return &Q{T: "substr", Pat: v.Pattern, FN: v.FileName, CT: v.Content, CS: v.CaseSensitive}
+	case *query.Regexp:
+		return &Q{T: "regex", Pat: v.Regexp.String(), RE: v.Regexp, FN: v.FileName, CT: v.Content, CS: v.CaseSensitive}
+	case *query.Symbol:
+		return &Q{T: "symbol", Sub: []*Q{FromZoekt(v.Expr)}}
+	case *query.Branch:
+		return &Q{T: "branch", Pat: v.Pattern, B: v.Exact}
+	case *query.Repo:
+		return &Q{T: "repo", Pat: v.Regexp.String()}
+	case *query.RepoRegexp:
+		return &Q{T: "reporegexp", Pat: v.Regexp.String()}
+	case *query.RepoSet:
+		var names []string
+		for n, ok := range v.Set {
+			if ok {
+				names = append(names, n)
+			}
+		}
+		sort.Strings(names)
+		return &Q{T: "reposet", Names: names}
+	case *query.RepoIDs:
+		return &Q{T: "repoids", IDs: ids(v.Repos)}
+	case *query.BranchesRepos:
+		r := &Q{T: "branchesrepos"}
+		for _, e := range v.List {
+			r.BR = append(r.BR, BranchIDs{Branch: e.Branch, IDs: ids(e.Repos)})
+		}
+		return r
+	case *query.Language:
+		return &Q{T: "lang", S: v.Language}
+	case *query.Meta:
+		return &Q{T: "meta", S: v.Field, Pat: v.Value.String()}
+	case *query.FileNameSet:
+		var names []string
+		for n := range v.Set {
+			names = append(names, n)
+		}
+		sort.Strings(names)
+		return &Q{T: "filenameset", Names: names}
+	case query.RawConfig:
+		return &Q{T: "rawconfig", Flags: uint64(v)}
+	case *query.Type:
+		k := map[uint8]string{query.TypeFileMatch: "filematch", query.TypeFileName: "filename", query.TypeRepo: "repo"}[v.Type]
+		return &Q{T: "type", S: k, Sub: []*Q{FromZoekt(v.Child)}}
+	case *query.Boost:
+		return &Q{T: "boost", Sub: []*Q{FromZoekt(v.Child)}}
+	}
+	panic("FromZoekt: unsupported node " + q.String())
 }
